@@ -185,6 +185,10 @@ func c09Case(i int64, seed uint64, nSweep int64) evalCase {
 	i -= nSweep
 	if i%4 == 3 {
 		r := prng.New(seed, 0xC09E, uint64(i))
+		if i%32 == 31 {
+			p, d, k := libArrayCase(r)
+			return evalCase{prog: p, doc: d, kind: k, det: !strings.Contains(p, "$shuffle")}
+		}
 		p, d, k := edgeCase(r)
 		return evalCase{prog: p, doc: d, kind: k, det: true}
 	}
